@@ -8,9 +8,14 @@ is skipped by `PdoMap.save` itself, the loop goes on with the next map.
 
 The device on the other side is any `Dev σ`; `multiDev` is the strict device with several PDOs of
 Spec/StrictPdoDevice.lean as such a peer.
+
+Subscriptions: `PdoMap.subscribe` / `PdoBase.subscribe` and the effect of all subscribe calls of
+`read` / `save` / `subscribe` on `Network.subscribers`, which is the subscriber table of the C10
+model (`Net/Network.lean`: `Subs`, `Net.subscribe` = `Network.subscribe`, append unless present).
 -/
 import CanopenModel.Pdo.Config
 import CanopenModel.Spec.StrictPdoDevice
+import CanopenModel.Net.Network
 
 namespace Canopen.Pdo
 open Canopen.Gen.PdoConfig Canopen.Spec.StrictPdo
@@ -85,5 +90,29 @@ def saveMaps {σ} (D : Dev σ) (all sel : List MapSt) : M σ (List MapSt) :=
 def readMaps {σ} (D : Dev σ) (src : Src) (all sel : List MapSt) : M σ (List MapSt) :=
   M.bind (readAll D src (sel.map fun m => (m.od, m.cfg))) fun outs =>
   M.pure (mergeMaps all (List.zipWith MapSt.afterRead sel outs))
+
+/-! ### subscriptions -/
+
+/-- `pdo_map.on_message` of map `(isTx, n)` of node object `o`: a bound method, one per map object -/
+def mapCb (o : Nat) (isTx : Bool) (n : Nat) : Net.Cb :=
+  .node o (.other (2 * n + (if isTx then 1 else 0)))
+
+/-- `PdoMap.subscribe()`: `if self.enabled: network.subscribe(self.cob_id, self.on_message)` — the
+    COB-IDs handed to `network.subscribe` -/
+def subscribeCalls (cfg : Cfg) : List Nat := if cfg.enabled then cfg.cob.toList else []
+
+def MapSt.subscribe (m : MapSt) : MapSt := { m with subs := m.subs ++ subscribeCalls m.cfg }
+
+/-- `PdoBase.subscribe()`: `for pdo_map in self.map.values(): pdo_map.subscribe()` on the maps `sel` -/
+def subscribeMaps (all sel : List MapSt) : List MapSt := mergeMaps all (sel.map MapSt.subscribe)
+
+/-- the `network.subscribe(cob, on_message)` calls the maps `visited` made (their `subs`), in the
+    order the maps were visited -/
+def subsCalls (o : Nat) (visited : List MapSt) : List (Nat × Net.Cb) :=
+  visited.flatMap fun m => m.subs.map fun c => (c, mapCb o m.isTx m.n)
+
+/-- `Network.subscribers` after those calls, from any prior table -/
+def tableAfter (o : Nat) (prior : Net.Subs) (visited : List MapSt) : Net.Subs :=
+  Net.subscribeMany prior (subsCalls o visited)
 
 end Canopen.Pdo
